@@ -232,6 +232,37 @@ pub fn project_calc(v: &adsb_deku::adsb::AirborneVelocity) -> Value {
     }
 }
 
+/// input lines: {"bytes":[..], "n": k} - the bytes are a stream read through the library's own cursor type of this
+/// build (std::io::Cursor / the no_std one): k decodes one after the other from the same reader, whatever each one
+/// returns. What is recorded is what each decode produced.
+fn cmd_stream() {
+    let stdin = std::io::stdin();
+    let stdout = std::io::stdout();
+    let mut out = BufWriter::new(stdout.lock());
+    for line in stdin.lock().lines() {
+        let line = line.unwrap();
+        if line.trim().is_empty() {
+            continue;
+        }
+        let v: Value = serde_json::from_str(&line).expect("input json");
+        let bytes: Vec<u8> = v["bytes"].as_array().unwrap().iter().map(|x| x.as_u64().unwrap() as u8).collect();
+        let n = v["n"].as_u64().unwrap_or(2);
+        let mut cur = deku::no_std_io::Cursor::new(bytes.clone());
+        let mut outs = vec![];
+        for _ in 0..n {
+            let r = catch_unwind(AssertUnwindSafe(|| Frame::from_reader(&mut cur)));
+            outs.push(match r {
+                Err(_) => json!({"ok": 2}),
+                Ok(Err(_)) => json!({"ok": 0}),
+                Ok(Ok(f)) => Value::Object(project::frame(&f)),
+            });
+        }
+        serde_json::to_writer(&mut out, &json!({"ev": "stream", "bytes": bytes, "outs": outs})).unwrap();
+        out.write_all(b"\n").unwrap();
+    }
+    out.flush().unwrap();
+}
+
 fn cmd_decode(args: &[String]) {
     let want_text = args.iter().any(|a| a == "--text");
     let want_ops = args.iter().any(|a| a == "--ops");
@@ -441,6 +472,7 @@ fn main() {
         Some("reader") => reader::cmd_reader(),
         #[cfg(feature = "std")]
         Some("bits") => bits::cmd_bits(),
+        Some("stream") => cmd_stream(),
         Some("nlsweep") => cmd_nlsweep(),
         Some("config") => {
             println!("{}", if cfg!(feature = "std") { "std" } else { "alloc" });
